@@ -185,6 +185,8 @@ def evalElem (c : EvalCfg) (k : Nat) (env : Env) (e : Elem) : M Value :=
     let o := c.σ.chain e.b k prev caps (visible c.names env)
     match e.wrap, e.lazy with
     | .plain, false => ⟨(chainEvents e.b k o).map .ev, o.res.toRes⟩
+    -- a tokio task, awaited: under the canonical schedule (every operand polled to completion in turn) it is the chain
+    | .tokio, false => ⟨(chainEvents e.b k o).map .ev, o.res.toRes⟩
     | .thread b, true =>
       match env.lookup (.j b) with
       | some (.builder idx) =>
@@ -227,7 +229,11 @@ def evalStep (c : EvalCfg) (env : Env) (s : StepCode) : M (Env × Value) :=
   (match s.form with
     | .tuple => M.ret (mkTuple vs)
     | .call _ => (M.tell [.ev (.joiner s.k vs)]).andThen fun _ => M.lift (c.σ.joiner s.k vs).toRes
-    | .awaitCat => M.stuck).andThen fun sr =>
+    -- `futures::join!(e₁, …, eₙ)`: awaits all operands, yields the tuple of their outputs
+    | .futJoin _ false => M.ret (mkTuple vs)
+    | .futJoin _ true => M.stuck
+    -- a single operand, awaited
+    | .awaitCat => M.ret (mkTuple vs)).andThen fun sr =>
   match s.spawnJoin with
   | none => M.ret (env', sr)
   | some ps => (evalJoins s.k sr (s.elems.map Elem.b) ps).andThen fun vs' => M.ret (env', mkTuple vs')
